@@ -27,6 +27,7 @@ const (
 	c01KEnd                  // close the header block: decode, compare
 	c01KPeer                 // SETTINGS exchange: dec.SetAllowedMaxDynamicTableSize(v) + enc.SetMaxDynamicTableSize(v)
 	c01KLimit                // enc.SetMaxDynamicTableSizeLimit(v) (encoder-local)
+	c01KBlock                // a whole one-field header block: Field immediately followed by End
 )
 
 type c01OpDef struct {
@@ -44,6 +45,9 @@ func c01F(label, n, v string) c01OpDef {
 }
 func c01S(label, n, v string) c01OpDef {
 	return c01OpDef{label: "S(" + label + ")", kind: c01KField, f: HeaderField{Name: n, Value: v, Sensitive: true}}
+}
+func c01B(label, n, v string, sens bool) c01OpDef {
+	return c01OpDef{label: "B(" + label + ")", kind: c01KBlock, f: HeaderField{Name: n, Value: v, Sensitive: sens}}
 }
 func c01P(v uint32) c01OpDef {
 	return c01OpDef{label: fmt.Sprintf("Peer(%d)", v), kind: c01KPeer, v: v}
@@ -77,6 +81,8 @@ var c01OpTab = []c01OpDef{
 	c01S("accept-charset=u", "accept-charset", "u"), // name index 15: exactly the 4-bit prefix boundary
 	c01S(":status=5", ":status", "5"),               // name index 14: just below it
 	c01S("=", "", ""),
+	c01B("k=v", "k", "v", false), c01B("k=w", "k", "w", false), c01B("=", "", "", false), c01B("cookie=v", "cookie", "v", false),
+	c01B("big=z*100", "big", strings.Repeat("z", 100), false), c01B("S:k=v", "k", "v", true),
 	{label: "End", kind: c01KEnd},
 	c01P(0), c01P(33), c01P(70), c01P(4096), c01P(8192), c01P(30), c01P(31),
 	c01L(0), c01L(70), c01L(4096), c01L(16384),
@@ -523,7 +529,7 @@ func c01Enabled(s *c01State, op c01Op) bool {
 	switch op.def().kind {
 	case c01KEnd:
 		return len(s.pend) > 0
-	case c01KPeer, c01KLimit:
+	case c01KPeer, c01KLimit, c01KBlock:
 		return len(s.pend) == 0
 	}
 	return true
